@@ -246,6 +246,26 @@ def install_nd(I):
     for nm, fn in _ELEMENTWISE.items():
         I.ext[f"numpy.{nm}"] = (lambda fn: lambda I, a, k, n: from_np(np.vectorize(fn, otypes=[object])(to_np(I, a[0], n)))
                                 if isinstance(to_np(I, a[0], n), np.ndarray) else fn(to_np(I, a[0], n)))(fn)
+    def _isnan(I, a, k, n):
+        v = to_np(I, a[0], n)
+        if isinstance(v, np.ndarray):
+            out = np.empty(v.shape, dtype=object)
+            for idx in np.ndindex(*v.shape):
+                out[idx] = v[idx] is sp.nan
+            return out
+        return v is sp.nan
+    I.ext["numpy.isnan"] = _isnan
+
+    def _nan_to_num(I, a, k, n):
+        v = to_np(I, a[0], n)
+        fix = lambda x: sp.Integer(0) if x is sp.nan else x
+        if isinstance(v, np.ndarray):
+            out = np.empty(v.shape, dtype=object)
+            for idx in np.ndindex(*v.shape):
+                out[idx] = fix(v[idx])
+            return out
+        return fix(v)
+    I.ext["numpy.nan_to_num"] = _nan_to_num
     old_len = I.ext.get("builtins.len")
     I.ext["builtins.len"] = lambda I, a, k, n: sp.Integer(len(a[0])) if isinstance(a[0], np.ndarray) else old_len(I, a, k, n)
     old_sum = I.ext.get("builtins.sum")
